@@ -62,6 +62,12 @@ func loadC19Progs(baseSeed uint64, nGen int) []*c19Prog {
 	out = append(out, &c19Prog{Name: "grid_flat", Header: []string{"\tORG\t0x7c00"}, Body: []string{"entry:", "\tMOV\tAX,0", "\tMOV\tSS,AX", "\tMOV\tSI,msg", "putloop:", "\tMOV\tAL,[SI]", "\tADD\tSI,1", "\tCMP\tAL,0", "\tJE\tfin", "\tMOV\tAH,0x0e", "\tINT\t0x10", "\tJMP\tputloop", "fin:", "\tHLT", "\tJMP\tfin", "msg:", "\tDB\t0x0a, 0x0a", "\tDB\t\"hello, world\"", "\tDB\t0x0a", "\tDB\t0", "\tRESB\t40"}})
 	out = append(out, &c19Prog{Name: "grid_coff", Coff: true, Header: []string{`[FORMAT "WCOFF"]`, `[INSTRSET "i486p"]`, "[BITS 32]", `[FILE "naskfunc.nas"]`},
 		Body: []string{"\tGLOBAL\t_io_hlt, _io_cli, _io_out8, _io_load_eflags_long_name", "[SECTION .text]", "_io_hlt:", "\tHLT", "\tRET", "_io_cli:", "\tCLI", "\tRET", "_io_out8:", "\tMOV\tEDX,[ESP+4]", "\tMOV\tAL,[ESP+8]", "\tOUT\tDX,AL", "\tRET", "_io_load_eflags_long_name:", "\tPUSHFD", "\tPOP\tEAX", "\tRET"}})
+	// sources that parse but fail late, after frontend.Exec has opened the output: a panic in code
+	// generation (INT with a vector >= 0x80) and a pass-2 failure (jump to a label containing '.')
+	lateBody := []string{"entry:", "\tMOV\tAX,1", "\tMOV\tBX,2", "\tDB\t1, 2, 3, 4, 5, 6, 7, 8", "\tDD\t0x12345678, 0x9abcdef0", "\tRESB\t64"}
+	out = append(out, &c19Prog{Name: "late_panic", Header: []string{"\tORG\t0x7c00"}, Body: append(append([]string{}, lateBody...), "\tINT\t0x80", "\tHLT")})
+	out = append(out, &c19Prog{Name: "late_pass2", Header: []string{"\tORG\t0x7c00"}, Body: append(append([]string{}, lateBody...), ".loop:", "\tJMP\t.loop", "\tHLT")})
+	out = append(out, &c19Prog{Name: "late_panic_coff", Coff: true, Header: []string{`[FORMAT "WCOFF"]`, "[BITS 32]", `[FILE "late.nas"]`}, Body: append(append([]string{"\tGLOBAL\tentry", "[SECTION .text]"}, lateBody...), "\tINT\t0x80", "\tRET")})
 	// boundary sizes: images of exactly 0, 1, a block, a buffer, many buffers
 	for _, n := range []int{0, 1, 511, 512, 513, 4095, 4096, 4097, 65535, 65536, 65537, 131072, 196608} {
 		out = append(out, &c19Prog{Name: fmt.Sprintf("bnd_resb_%d", n), Body: []string{fmt.Sprintf("\tRESB\t%d", n)}})
@@ -580,6 +586,9 @@ func runC19(tierName string) int {
 			A.probes["utf8_source"]++
 		}
 		A.worldChanges += len(o.WorldChanges)
+		if o.LineMismatch != "" {
+			A.probes["parse_error_line_differs_from_comment_free_form_nongating"]++
+		}
 		if len(A.samples) < 4 && v == nil && (s.Fault != nil || s.Enc == "sjis") && len(A.samples) < 4 {
 			A.samples = append(A.samples, map[string]any{"seed": s.Seed, "prog": s.ProgName, "enc": s.Enc, "argv_shape": s.Shape, "src": s.SrcKind, "dst": s.DstKind, "uid": s.Uid, "fault": s.Fault.String(), "exit": o.Exit, "dst_pre": o.DstPre, "dst_post": o.DstPost, "expect": o.Expect, "fault_fired": o.FaultFired, "heal_exit": o.HealExit})
 		}
